@@ -142,6 +142,7 @@ class C11(Prop):
   driver = 'drv_c11'
   translators = []
   case_timeout_s = 60
+  jobs_quick = 8
   rule = ('specs: random trees of spaces / single and multi choices (k<=4, n<=5, all distinct x sorted '
           'modes, nesting depth<=3, conditional sub-spaces of 1-3 elements), a non-finite stream with '
           'float and custom points (~25 %), and the exhaustive depth-1 family (k<=3, n<=4, candidates '
@@ -206,7 +207,12 @@ class C11(Prop):
     for _ in range(n_rand):
       yield self.make_case(G.gen_spec(rng, False, cap), rng, cap=cap)
     for _ in range(n_inf):
-      yield self.make_case(G.gen_spec(rng, True, cap), rng, cap=cap)
+      spec = G.gen_spec(rng, True, cap)
+      for _ in range(8):
+        if not G.is_finite(spec):
+          break
+        spec = G.gen_spec(rng, True, cap)
+      yield self.make_case(spec, rng, cap=cap)
     # the exhaustive depth-1 family (and a slice of depth 2 built on top of it)
     fam = [p for p in G.family_points() if G.size_bound(p) <= cap]
     if tier == 'quick':
